@@ -351,5 +351,7 @@ def run_case(case):
         for combo in itertools.product(range(5), repeat=ln):
             combo = list(combo)
             compare("ordered-batch[" + ",".join(names[c] for c in combo) + "]", rq[combo], rw[combo], 1.0)
+            if ln <= 2:
+                compare("ordered-batch[" + ",".join(names[c] for c in combo) + "]", rq[combo], rw[combo], 2.5)
     rep.sample({"case": case, "nq": int(len(Q)), "F0": size})
     return rep
